@@ -94,3 +94,9 @@ pub(crate) fn init_with_config<S>(
 
     Ok((key, id))
 }
+
+#[cfg(rustic_core_verif)]
+#[allow(missing_docs, unused_imports, dead_code, clippy::all, clippy::pedantic, clippy::nursery)]
+pub mod verif_hooks {
+    use super::*;
+}
